@@ -37,6 +37,66 @@ def _specs() -> Dict[str, Dict[str, Any]]:
                                 "completion_out_of_order", "trim_removed_rows", "linked_rows",
                                 "link_partner_absent", "restart_sessions"],
         }
+    from .profiles import symtab
+    specs["C11"] = {
+        "id": "C11", "stream": "symtab", "profile": symtab, "props": ["C11"], "level": "exploration",
+        "batches": [
+            {"name": "history", "args": {"kind": "history"}, "runs": {"quick": 200, "thorough": 6000}},
+            {"name": "decode", "args": {"kind": "decode"}, "runs": {"quick": 120, "thorough": 2500}},
+            {"name": "env", "args": {"kind": "env"}, "runs": {"quick": 64, "thorough": 1200}},
+        ],
+        "rule": ("three kinds of simulated run. history: a seeded sequence of 2-10 symbol-table operations (add_symbols, "
+                 "add_symbols_mp on a lock-step fork pool whose tape interleaves the workers' individual queue puts, clone, "
+                 "combine, create_from_symbol_id_map, cached-series reads) checked step by step against a list+dict model "
+                 "(exact arrival order reconstructed from the simulator's log). decode: multi-rank loads through the pool / "
+                 "sequentially / parse_single_rank permutations; every row must decode to its file's strings. env: one world "
+                 "loaded and analysed by a battery of up to 18 public getters in 3-4 sessions that differ only in "
+                 "PYTHONHASHSEED, pool on/off, cpu count and tape; canonicalised results must be equal. "
+                 "distinct_nontrivial = distinct event-log digests among runs where an oracle compared a non-empty observable"),
+        "assumptions": GENERATOR_ASSUMPTIONS + [
+            "env comparison: ids decoded to strings, rows order-insensitive, integers exact, floats to relative 1e-9",
+            "getters that raise in every session (same exception class) are counted as compared-equal and reported as probes getter_raised:*",
+        ],
+        "expected_probes": ["puts_interleaved", "same_symbol_from_two_workers", "numbering_differs",
+                            "add_mp_exact_order_checked", "completion_out_of_order"],
+    }
+    from .profiles import cp
+    cp_assume = GENERATOR_ASSUMPTIONS + [
+        "critical-path worlds are causally consistent: a device activity starts no earlier than its launch call starts, a synchronising call returns no earlier than the work it waits for",
+        "an analysis that raises or reports failure is a matter of C08 (not claimed): such runs are counted (probes analysis_raised / analysis_unsuccessful) and not evaluated; if no analysis succeeds in a whole batch the check exits 2",
+    ]
+    specs["C09"] = {
+        "id": "C09", "stream": "cp09", "profile": cp, "props": ["C09"], "level": "exploration",
+        "batches": [{"name": "histories", "args": {"kind": "c09"}, "runs": {"quick": 200, "thorough": 5000}}],
+        "rule": ("one evaluation = one simulated session over a causally consistent generated world: load, 1-2 critical-path "
+                 "analyses (annotation window / instance range / env flags), then a history of recompute, re-weight k edges "
+                 "(speed-up, slow-down, zero, set) + recompute, deepcopy and continue on the copy, look at the original again; "
+                 "after every computation the path is checked for connectivity, maximal total weight (independent "
+                 "topological-order DP), exact events / edges sets and, on unedited graphs, the makespan bound. "
+                 "distinct_nontrivial = distinct event-log digests among runs with at least one checked computation"),
+        "assumptions": cp_assume,
+        "expected_probes": ["analysis_succeeded", "reweighting_moved_the_path", "deepcopy", "path_through_sync_edge",
+                            "zero_weight_launch_edges_present"],
+        "precondition_probe": "analysis_succeeded",
+    }
+    specs["C19"] = {
+        "id": "C19", "stream": "cp19", "profile": cp, "props": ["C19"], "level": "exploration",
+        "batches": [
+            {"name": "fault-free", "args": {"kind": "c19", "faulty": False}, "runs": {"quick": 140, "thorough": 3000}},
+            {"name": "faults", "args": {"kind": "c19", "faulty": True}, "runs": {"quick": 100, "thorough": 2500}},
+        ],
+        "rule": ("one evaluation = one simulated run: analysis in session A, then 1-4 save / restore cycles in which each "
+                 "restore happens in the same session, in a new interpreter under the same zygote, or in a new interpreter "
+                 "under a different PYTHONHASHSEED (so with a different symbol numbering); absolute and relative out_dir, "
+                 "reused out_dir, breakdown before or after the save; fault batch: ENOSPC / EIO / kill inside a write of "
+                 "save, EIO inside a read of restore, kill right after a save. Oracle: every attribute of the restored "
+                 "graph equals the saved one, recomputation gives the same total, breakdown and summary equal the "
+                 "original's. distinct_nontrivial = distinct event-log digests among runs with a checked restore"),
+        "assumptions": cp_assume + ["after a failed or killed save nothing is required of that archive; a restore of it may raise"],
+        "expected_probes": ["analysis_succeeded", "restore_checked", "restore_under_other_hashseed",
+                            "recompute_on_restored_graph", "save_acknowledged"],
+        "precondition_probe": "restore_checked",
+    }
     return specs
 
 
